@@ -50,6 +50,7 @@ import (
 	"math"
 	"regexp"
 	"sort"
+	"strings"
 	"sync"
 
 	"github.com/google/licenseclassifier/stringclassifier/internal/pq"
@@ -112,7 +113,6 @@ func New(threshold float64, funcs ...NormalizeFunc) *Classifier {
 type knownValue struct {
 	key             string
 	normalizedValue string
-	reValue         *regexp.Regexp
 	set             *searchset.SearchSet
 }
 
@@ -128,7 +128,6 @@ func (c *Classifier) AddValue(key, value string) error {
 	c.values[key] = &knownValue{
 		key:             key,
 		normalizedValue: norm,
-		reValue:         regexp.MustCompile(norm),
 	}
 	return nil
 }
@@ -146,7 +145,6 @@ func (c *Classifier) AddPrecomputedValue(key, value string, set *searchset.Searc
 	c.values[key] = &knownValue{
 		key:             key,
 		normalizedValue: value,
-		reValue:         regexp.MustCompile(value),
 		set:             set,
 	}
 	return nil
@@ -360,7 +358,7 @@ func newMatcher(unknown string, threshold float64) *matcher {
 // are the best matches.
 func (m *matcher) findMatches(known *knownValue) {
 	var mrs []searchset.MatchRanges
-	if all := known.reValue.FindAllStringIndex(m.normUnknown, -1); all != nil {
+	if all := findAllIndex(m.normUnknown, known.normalizedValue); all != nil {
 		// We found exact matches. Just use those!
 		for _, a := range all {
 			var start, end int
@@ -409,6 +407,26 @@ func (m *matcher) findMatches(known *knownValue) {
 // withinConfidenceThreshold returns the Confidence we have in the potential
 // match. It does this by calculating the ratio of what's matching to the
 // original known text.
+// findAllIndex returns the [start, end) byte ranges of the successive
+// non-overlapping occurrences of the literal text sub in s, or nil if there
+// are none. The known value is searched for as text: compiling it as a regular
+// expression gave its punctuation a meaning it does not have and panicked
+// (regexp.MustCompile) on values such as "a (b", "c++" or invalid UTF-8.
+func findAllIndex(s, sub string) [][]int {
+	if sub == "" {
+		return nil
+	}
+	var all [][]int
+	for from := 0; ; {
+		i := strings.Index(s[from:], sub)
+		if i < 0 {
+			return all
+		}
+		all = append(all, []int{from + i, from + i + len(sub)})
+		from += i + len(sub)
+	}
+}
+
 func (m *matcher) withinConfidenceThreshold(known *searchset.SearchSet, mr searchset.MatchRanges) bool {
 	return float64(mr.Size())/float64(len(known.Tokens)) >= m.threshold
 }
